@@ -22,10 +22,11 @@ Proof.
   - rewrite Hfix. destruct (ty_kind t); reflexivity.
 Qed.
 
-Lemma defer_loop_no_ignore : forall g p ids st,
-  existsb ev_is_ignore (ro_trace (defer_loop g p st ids)) = false.
+Lemma defer_loop_no_ignore : forall fuel g p ids st,
+  existsb ev_is_ignore (ro_trace (defer_loop fuel g p st ids)) = false.
 Proof.
-  intros g p ids. induction ids as [|i r IH]; intros st; cbn [defer_loop]; [reflexivity|].
+  intros fuel g p. induction fuel as [|fuel IH]; intros ids st;
+    (destruct ids as [|i r]; cbn [defer_loop]; [reflexivity|]); [reflexivity|].
   destruct (g_defer g st p i) as [st' o]. destruct (so_res o); cbn [ro_trace existsb ev_is_ignore]; try reflexivity.
   apply IH.
 Qed.
